@@ -135,6 +135,30 @@ def corr(ctx):
                                     "not-static" if not r["static"] else "dropped" if r["dropped"] else "lexer-violates-O_lexer_concat"))
         if premises and not r["equal"]:
             ctx.disagree("C02_faithful statement: skeletons differ although all premises hold", case, "skel_node(doc)", "skel_tok(tokens)")
+    # round 2, measured statements (extracted checks of coq/Doc/Backends.v on the same real token trees)
+    # (a) totality conjecture: a forest satisfying static_total is rendered by the model
+    for case, r in zip(batch, M.model_measure(PID, "total", batch)):
+        if r is None:
+            continue
+        ctx.corr_cases += 1
+        ctx.count("measured:totality:" + {"T 11": "premise-holds,renders", "T 10": "premise-holds,FAILS",
+                                          "T 01": "outside-premise,renders", "T 00": "outside-premise,not-rendered"}
+                  .get(r["reply"], r["reply"][:12]))
+        if r["reply"] == "T 10":
+            ctx.disagree("totality statement: static_total forest that the model does not render", case, "", r["reply"])
+    # (b) both back ends, full node equality after the erasure erase_be (documents without dynamic syntax: the runs of
+    #     a directive / role are different programs in the two back ends)
+    nd = [c for l, c in zip(labels, batch) if not l.startswith("dyn")]
+    for case, r in zip(nd, M.model_measure(PID, "agree", nd)):
+        if r is None:
+            continue
+        ctx.corr_cases += 1
+        rep = r["reply"]
+        key = ("agree" if rep == "A 1" else "DIFFER" if rep == "A 0" and r["lexer_ok"] else
+               "differ:lexer-violates-O_lexer_concat" if rep == "A 0" else "not-rendered-by-both")
+        ctx.count("measured:backends-tree:" + key)
+        if key == "DIFFER":
+            ctx.disagree("backends_agree (tree level): the two renderers differ after erase_be", case, "docutils", "sphinx")
     ctx.notes.append("correspondence: %d cases outside the modelled subset (not compared)" % n_notmodelled)
     if batch:
         ctx.sample({"correspondence_case": batch[len(batch) // 2]})
